@@ -11,7 +11,9 @@ CLAIMED = {
               "flavours (clean death, torn buffer, death inside the operation, failing write), and the "
               "durable bytes are judged against the prefix / one-JSON-document invariants; after every "
               "completed observer call the same bytes are checked for completeness. Deployments themselves "
-              "(driver, observers, modes, histories) are sampled by seed."),
+              "(driver, observers, modes, histories) are sampled by seed. Seeded sub-faults per deployment: a logged "
+              "quantity raising inside an observer call, the calculator raising inside a step under run(), a resuming "
+              "process dying at each of its own operations, a second execution over stale files, run-close-run."),
         note=("Process-death model with OS-level durability (no power loss); SimFile is validated against real "
               "files; calculators are analytic stubs; deployments are sampled, crash points per deployment "
               "are exhaustive."),
@@ -65,7 +67,8 @@ CLAIMED = {
         level="exploration",
         text=("FixAtoms / FixCom / FixRot deployments under displacement, composite, Hamiltonian (random dt, steps) and "
               "force-bias (random delta, T) moves through forced accept/reject/veto histories; fixed rows bitwise, "
-              "centre of mass, angular and linear momentum checked at criteria entry and after every trial or step."),
+              "centre of mass, angular and linear momentum checked at criteria entry and after every trial or step, "
+              "and again in a continuation rebuilt from the saved state (to_dict -> JSON -> from_dict) at the end of the history."),
         note="FixAtoms+FixCom is not generated (ASE applies constraints sequentially, one undoes the other by construction); FixRot only on non-periodic clusters.",
         technique="deterministic simulation with constraint dimension; invariants checked every trial/step",
         design="§4 C12"),
